@@ -136,6 +136,11 @@ pub fn writer_scenarios(seed: u64, max_len: usize) -> Vec<WScn> {
             crate::reference::zipbuild::build(&spec).0
         }),
     ];
+    let mut bases = bases;
+    bases.push(("base-nested-zip-last", {
+        let inner = exec(&[Call::SetComment(b"inner".to_vec()), Call::StartFile { name: "inner.txt".into(), opts: FOpts::m(0) }, Call::Write(b"inner content".to_vec()), Call::Finish], &[]).1;
+        exec(&[Call::StartFile { name: "outer.txt".into(), opts: FOpts::m(8) }, Call::Write(b"outer content".to_vec()), Call::StartFile { name: "nested.zip".into(), opts: FOpts::m(0) }, Call::Write(inner), Call::Finish], &[]).1
+    }));
     for (bl, b) in &bases {
         v.push(WScn { label: format!("append:{bl}+nothing"), base: Some(b.clone()), calls: vec![Call::Finish], pw: false });
         for c in &al {
@@ -257,6 +262,38 @@ fn run_r(s: &c09::Scn, stream: bool, visitor: bool, p: PlanRef) -> Result<RObs, 
     }
 }
 
+/// Reader scenarios that only make sense under faults: an older, complete end record inside the search window
+/// (a stored nested archive as the last entry), a long archive comment (the backward search takes several steps),
+/// and data-descriptor entries.
+pub fn extra_reader_scenarios(seed: u64) -> Vec<c09::Scn> {
+    use crate::reference::zipbuild::{build, Dd, ESpec, Spec};
+    let (a, b) = c09::contents(seed, 700);
+    let inner = build(&Spec { entries: vec![ESpec { name: b"inner.txt".to_vec(), method: 0, content: b"inner content".to_vec(), ..Default::default() }], comment: b"inner".to_vec(), ..Default::default() }).0;
+    let mut v = vec![];
+    v.push(c09::Scn {
+        label: "nested-stored-zip-last".into(),
+        bytes: build(&Spec { entries: vec![ESpec { name: b"first".to_vec(), method: 8, content: a.clone(), ..Default::default() }, ESpec { name: b"bundle/nested.zip".to_vec(), method: 0, content: inner.clone(), ..Default::default() }], ..Default::default() }).0,
+        pw: None,
+        stream: true,
+        aes: false,
+    });
+    v.push(c09::Scn {
+        label: "long-comment-3000".into(),
+        bytes: build(&Spec { entries: vec![ESpec { name: b"first".to_vec(), method: 0, content: a.clone(), ..Default::default() }, ESpec { name: b"second".to_vec(), method: 8, content: b.clone(), ..Default::default() }], comment: vec![b'c'; 3000], ..Default::default() }).0,
+        pw: None,
+        stream: false,
+        aes: false,
+    });
+    v.push(c09::Scn {
+        label: "data-descriptors".into(),
+        bytes: build(&Spec { entries: vec![ESpec { name: b"first".to_vec(), method: 8, content: a, dd: Dd::Sig32, ..Default::default() }, ESpec { name: b"second".to_vec(), method: 93, content: b, dd: Dd::NoSig32, ..Default::default() }], comment: b"dd".to_vec(), ..Default::default() }).0,
+        pw: None,
+        stream: false,
+        aes: false,
+    });
+    v
+}
+
 fn robs_has_err(o: &RObs) -> bool {
     o.open.is_err() || o.entries.iter().any(|e| e.content.is_err())
 }
@@ -321,7 +358,8 @@ fn replay(case: &Value, st: &mut Stats, seed: u64) {
             }
         }
     } else if let Some(label) = case["reader"].as_str() {
-        let scns = c09::scenarios(seed, 700);
+        let mut scns = c09::scenarios(seed, 700);
+        scns.extend(extra_reader_scenarios(seed));
         let route = match case["route"].as_str() {
             Some("stream") => 1,
             Some("visitor") => 2,
@@ -345,10 +383,11 @@ pub fn run(args: &Args) -> i32 {
     let thorough = args.tier.thorough();
     let src = crate::props::c02::sources(seed);
     let wscn = writer_scenarios(seed, 3);
-    let rscn = c09::scenarios(seed, 700);
+    let mut rscn = c09::scenarios(seed, 700);
+    rscn.extend(extra_reader_scenarios(seed));
     ctx.rule = format!(
-        "E-DEV over faults. Writer: every sequence of 1..={} composites over a 12-composite alphabet (plain/compressed/large files, directory, symlink, extra data, aligned, ZipCrypto, raw copy) + finish + explicit drop, and append onto 4 bases (two files, empty, large-file extra data, prefixed foreign) + each composite: {} scenarios. \
-         Reader: 7 archives (all methods, ZipCrypto, AE-1, AE-2, prefixed ZIP64) through the seekable reader, the plain ones also through the streaming loop and the visitor. For each scenario the failure-free run numbers its N I/O calls; a hard error is injected at EVERY call index, transient (that call only) and sticky (that call and all later ones); \
+        "E-DEV over faults. Writer: every sequence of 1..={} composites over a 12-composite alphabet (plain/compressed/large files, directory, symlink, extra data, aligned, ZipCrypto, raw copy) + finish + explicit drop, and append onto 5 bases (two files, empty, large-file extra data, prefixed foreign, nested archive as last entry) + each composite: {} scenarios. \
+         Reader: 10 archives (all methods, ZipCrypto, AE-1, AE-2, prefixed ZIP64, a stored nested archive as last entry, a 3000-byte comment, data descriptors) through the seekable reader, the plain ones also through the streaming loop and the visitor. For each scenario the failure-free run numbers its N I/O calls; a hard error is injected at EVERY call index, transient (that call only) and sticky (that call and all later ones); \
          all PAIRS of transient faults for scenarios with N <= {}. The script always runs to its end. Oracle: no call panics (incl. finish, Drop for ZipWriter, Drop for ZipFile); if no call reported an error, the result equals the failure-free run's. \
          distinct_nontrivial = distinct (scenario, fault set) executions in which the injected fault was actually reached (counted).",
         3,
